@@ -602,6 +602,25 @@ func runHamtInput(rep *Report, in HamtInput, cf *CaseFile) {
 			}
 			if len(distinct) == len(in.Entries) {
 				fail("C02", "build-error", "building a directory of distinctly named entries failed", "ok", o.Class)
+				if in.Mode == "sharded" && len(in.Entries) > 0 {
+					// C08: the reference HAMT holds the same entries without complaint
+					refOK := guard(func() error {
+						sh, err := boxohamt.NewShard(memDag{NewStore()}, in.Fanout)
+						if err != nil {
+							return err
+						}
+						for _, e := range in.Entries {
+							if err := sh.SetLink(context.Background(), e.Name, &format.Link{Name: e.Name, Size: uint64(e.Tsize), Cid: entryCid(e)}); err != nil {
+								return err
+							}
+						}
+						_, err = sh.Node()
+						return err
+					})
+					if refOK.Class == "ok" {
+						fail("C08", "build-error-reference-builds", "the sharded builder fails on an entry set the reference HAMT builds", "a root link", o.Class)
+					}
+				}
 			}
 			return
 		}
